@@ -45,6 +45,13 @@ FK_SI = [1 / 30000, 0.002, 1 / 2500]
 FK_DX = [1, 20e-6, 0.5]
 FK_VB = [[2, 4], [0.5, 1.5], [10, 30]]
 FK_BT = ["highpass", "lowpass"]
+FK_BT_ALIASES = {0: ["highpass", "hp", "HP", "HighPass"], 1: ["lowpass", "lp", "LP", "Lowpass"], 2: ["bandpass"]}
+
+
+def bt_code(v):
+    v = v.lower() if isinstance(v, str) else v
+    return 0 if v in ("highpass", "hp") else (1 if v in ("lowpass", "lp") else 2)
+
 FK_LAGC = [None, 0, 0.5, 0.002, 0.01]          # encoded by position - 1 (None -> -1)
 FK_KF = [None, {"bounds": [0.05, 0.1], "btype": "highpass"}, {"bounds": [100, 200], "btype": "lowpass"}]
 OPS = ["median", "average", "foo"]
@@ -271,8 +278,8 @@ def run_grouped_filter(ctx, case):
         ref_kw = dict(kw, ntr_pad=0, ntr_tap=None)
         fn = v.kfilt
     else:
-        kw = dict(si=FK_SI[case["si"]], dx=FK_DX[case["dx"]], vbounds=FK_VB[case["vb"]],
-                  btype=FK_BT[case["bt"]], ntr_pad=case["pad"], ntr_tap=case["tap"],
+        kw = dict(si=FK_SI[case["si"]], dx=FK_DX[case["dx"]], vbounds=None if case["vb"] < 0 else FK_VB[case["vb"]],
+                  btype=case.get("bt_str") or FK_BT[case["bt"]], ntr_pad=case["pad"], ntr_tap=case["tap"],
                   lagc=FK_LAGC[case["lagc"] + 1], kfilt=FK_KF[case["kf"] + 1])
         ref_kw = dict(kw)
         fn = v.fk
@@ -297,6 +304,8 @@ def run_grouped_filter(ctx, case):
         refs[c] = call(fn, x[sel], **ref_kw)
         if isinstance(refs[c], str) and err is None:
             err = refs[c]
+    if case.get("expect_error"):
+        return [-1] if (isinstance(y, str) and err is not None) else [0]
     if isinstance(y, str) or err is not None:
         if not (isinstance(y, str) and y == err):
             ctx.fail("%s with groups raised %s but the per-group calls gave %s" % (case["fn"], y if isinstance(y, str) else "a result", err),
@@ -325,7 +334,7 @@ def run_grouped_filter(ctx, case):
                     1 if rec["gpu"] else 0]
         else:
             obs += [table_id(FK_SI, rec["si"]), table_id(FK_DX, rec["dx"]), table_id(FK_VB, rec["vbounds"]),
-                    table_id(FK_BT, rec["btype"]), enc_none(rec["ntr_pad"]), enc_none(rec["ntr_tap"]),
+                    bt_code(rec["btype"]), enc_none(rec["ntr_pad"]), enc_none(rec["ntr_tap"]),
                     table_id(FK_LAGC, rec["lagc"]) - 1, table_id(FK_KF, rec["kfilt"]) - 1]
     return obs
 
@@ -340,7 +349,13 @@ def enc_filter_case(case):
 
 def impl_adc(ver_code, nc):
     import neuropixel
-    ver = {1: 1, 2: 2, 24: 2.4, 0: "NPultra"}[ver_code]
+    ver = {1: 1, 2: 2, 24: 2.4, 0: "NPultra", 3: 3}[ver_code]
+    if ver_code == 3:
+        try:
+            neuropixel.adc_shifts(version=ver, nc=nc)
+        except Exception:
+            return [-1]               # unknown probe version: the call fails (adc_channels unbound)
+        return [0]
     ss, adc = neuropixel.adc_shifts(version=ver, nc=nc)
     ncyc = 16 if ver_code in (2, 24) else 13
     nums = ss * ncyc
@@ -393,12 +408,14 @@ class StageTracer:
         self.saved = [(scipy.signal, "sosfiltfilt", scipy.signal.sosfiltfilt),
                       (v.fourier, "fshift", v.fourier.fshift),
                       (v, "interpolate_bad_channels", v.interpolate_bad_channels),
-                      (v, "kfilt", v.kfilt), (v, "car", v.car)]
+                      (v, "kfilt", v.kfilt), (v, "car", v.car),
+                      (v, "detect_bad_channels", v.detect_bad_channels)]
         scipy.signal.sosfiltfilt = self._wrap(1, scipy.signal.sosfiltfilt, 1, "x")
         v.fourier.fshift = self._wrap(2, v.fourier.fshift, 0, "w")
         v.interpolate_bad_channels = self._wrap(3, v.interpolate_bad_channels, 0, "data")
         v.kfilt = self._wrap(4, v.kfilt, 0, "x", spatial=True)
         v.car = self._wrap(4, v.car, 0, "x", spatial=True)
+        v.detect_bad_channels = self._wrap(5, v.detect_bad_channels, 0, "raw", spatial=True)
         return self
 
     def __exit__(self, *a):
@@ -412,16 +429,50 @@ def destripe_call(case, x, labels, tracer=None):
     if case.get("no_version"):
         nv = None
     lab = None if labels is None else np.array(labels)
+    mode = case.get("labels_mode", "given")
+    if mode == "detect":
+        lab = True
+    elif mode == "false":
+        lab = False
+    extra = {}
+    if case.get("butter") is not None:
+        extra["butter_kwargs"] = dict(case["butter"])
     with warnings.catch_warnings():
         warnings.simplefilter("ignore")
         if tracer is not None:
             with tracer:
                 return destripe_call(case, x, labels)
         if case["lfp"]:
-            return canon(v.destripe_lfp(x.copy(), case["fs"], h=h, channel_labels=lab, k_filter=case["k_filter"]),
-                         x.shape, "destripe_lfp")
+            return canon(v.destripe_lfp(x.copy(), case["fs"], h=h, channel_labels=lab, k_filter=case["k_filter"],
+                                        **extra), x.shape, "destripe_lfp")
+        if case.get("kk") is not None:
+            extra["k_kwargs"] = {k: (dict(val) if isinstance(val, dict) else val) for k, val in case["kk"].items()}
         return canon(v.destripe(x.copy(), case["fs"], h=h, neuropixel_version=nv, channel_labels=lab,
-                                k_filter=case["k_filter"]), x.shape, "destripe")
+                                k_filter=case["k_filter"], **extra), x.shape, "destripe")
+
+
+def destripe_input(case):
+    r = np.random.default_rng(case["seed"])
+    ns = case["ns"]
+    if case.get("labels_mode") == "detect":
+        # a common slow signal on the channels inside the brain, a dead and a noisy channel, quiet channels outside
+        common = np.cumsum(r.standard_normal(ns)) * 2e-6
+        x = r.standard_normal((384, ns)) * 8e-6 + (common - common.mean())
+        x[30] = r.standard_normal(ns) * 1e-8
+        x[100] += r.standard_normal(ns) * 2e-4
+        x[350:] = r.standard_normal((34, ns)) * 3e-6
+        return x
+    return r.standard_normal((384, ns)) * 1e-5
+
+
+def detect_labels(case, x):
+    with warnings.catch_warnings():
+        warnings.simplefilter("ignore")
+        if case["lfp"]:
+            lab, _ = V().detect_bad_channels(x.copy(), fs=case["fs"], psd_hf_threshold=1.4)
+        else:
+            lab, _ = V().detect_bad_channels(x.copy(), case["fs"])
+    return [int(v) for v in lab]
 
 
 def destripe_expected(case, x, labels, inside):
@@ -436,6 +487,10 @@ def destripe_expected(case, x, labels, inside):
         bk = {"N": 3, "Wn": 300 / fs * 2, "btype": "highpass"}
     lagc = None if fs < 3000 else int(fs / 10)
     kk = {"ntr_pad": 60, "ntr_tap": 0, "lagc": lagc, "butter_kwargs": {"N": 3, "Wn": 0.01, "btype": "highpass"}}
+    if case.get("butter") is not None:
+        bk = dict(case["butter"])
+    if case.get("kk") is not None and not case["lfp"]:
+        kk = {k: (dict(val) if isinstance(val, dict) else val) for k, val in case["kk"].items()}
     sos = scipy.signal.butter(**bk, output="sos")
     pre = scipy.signal.sosfiltfilt(sos, x)
     if not case.get("no_version"):
@@ -833,6 +888,11 @@ def gen_filter_cases(ctx):
         c = dict(base_f, seed=2000 + len(cases), vary=vary)
         c[vary] = val
         cases.append(c)
+    # fk: btype aliases (btype.lower() in ['highpass', 'hp'] / ['lowpass', 'lp']) and the argument guards
+    for j, (code, name) in enumerate([(c, n) for c in (0, 1) for n in FK_BT_ALIASES[c][1:]]):
+        cases.append(dict(base_f, seed=3100 + j, bt=code, bt_str=name, vary="btype_alias"))
+    cases.append(dict(base_f, seed=3200, bt=2, bt_str="bandpass", expect_error=True, vary="btype_invalid"))
+    cases.append(dict(base_f, seed=3201, vb=-1, expect_error=True, vary="vbounds_none"))
     # fk: a group smaller than ntr_pad with ntr_tap=None (the taper length follows the per-group clamp of the padding)
     for j, (coll, pad) in enumerate((([0] * 2 + [1] * 6, 4), ([3, 1, 3, 3, 1, 3, 3, 3, 3], 5), ([0] * 7 + [2] * 1, 3))):
         cases.append(dict(base_f, seed=3000 + j, nc=len(coll), coll=coll, pad=pad, tap=None, vary="pad_gt_group"))
@@ -859,6 +919,25 @@ def gen_destripe_cases(ctx):
         cases.append({"kind": "destripe", "gen": gens[i % 4], "lfp": i == 1, "fs": 2500 if i == 1 else 30000,
                       "k_filter": False, "labels": lab, "label_kind": "top_odd_%d" % k,
                       "ns": 256, "seed": rng.randrange(10 ** 6)})
+    # channel_labels=True (labels detected from the raw data), channel_labels=False, caller-supplied
+    # butter_kwargs / k_kwargs
+    cases.append({"kind": "destripe", "gen": "NP1", "lfp": False, "fs": 30000, "k_filter": True, "labels": None,
+                  "labels_mode": "detect", "label_kind": "detect", "ns": 3000, "seed": rng.randrange(10 ** 6)})
+    cases.append({"kind": "destripe", "gen": "NP2", "lfp": True, "fs": 2500, "k_filter": False, "labels": None,
+                  "labels_mode": "detect", "label_kind": "detect", "ns": 3000, "seed": rng.randrange(10 ** 6)})
+    cases.append({"kind": "destripe", "gen": "NP1", "lfp": False, "fs": 30000, "k_filter": True, "labels": None,
+                  "labels_mode": "false", "label_kind": "false", "ns": 256, "seed": rng.randrange(10 ** 6)})
+    cases.append({"kind": "destripe", "gen": "NP2", "lfp": False, "fs": 30000, "k_filter": True,
+                  "labels": gen_labels(rng, "mixed"), "label_kind": "mixed", "ns": 300, "seed": rng.randrange(10 ** 6),
+                  "butter": {"N": 2, "Wn": 0.05, "btype": "highpass"},
+                  "kk": {"ntr_pad": 10, "ntr_tap": 5, "lagc": 100,
+                         "butter_kwargs": {"N": 2, "Wn": 0.05, "btype": "highpass"}}})
+    cases.append({"kind": "destripe", "gen": "NP1", "lfp": False, "fs": 30000, "k_filter": False,
+                  "labels": gen_labels(rng, "top"), "label_kind": "top", "ns": 256, "seed": rng.randrange(10 ** 6),
+                  "kk": {"operator": "average"}})
+    cases.append({"kind": "destripe", "gen": "NP1", "lfp": True, "fs": 2500, "k_filter": True,
+                  "labels": gen_labels(rng, "top"), "label_kind": "top", "ns": 300, "seed": rng.randrange(10 ** 6),
+                  "butter": {"N": 2, "Wn": [1, 200], "btype": "bandpass", "fs": 2500}})
     # without labels / without a probe version (no re-alignment)
     for i, (lab, nov, lfp) in enumerate([(None, False, False), (None, True, False), ("mixed", True, False),
                                          (None, False, True), ("bad_only", False, False), ("top", True, False)]):
@@ -999,20 +1078,37 @@ def run(ctx):
     # ---- kfilt body: mirrored padding = filtering the explicitly padded block and cropping
     dist["kfilt_padding"] = 0
     rgp = np.random.default_rng(ctx.rng.randrange(10 ** 6))
-    for nx, pad, lagc in ((20, 3, None), (16, 5, 4), (30, 7, 300), (14, 1, None), (25, 12, 6), (40, 60, None),
-                          (60, 60, None), (61, 60, 300), (50, 60, 300)):
+    for nx, pad, lagc, tap in ((20, 3, None, 0), (16, 5, 4, 0), (30, 7, 300, 0), (14, 1, None, 0), (25, 12, 6, 0),
+                               (40, 60, None, 0), (60, 60, None, 0), (61, 60, 300, 0), (50, 60, 300, 0),
+                               # cosine taper: explicit length, default (None -> the clamped padding), longer than
+                               # the padding, without padding, with gain control
+                               (20, 3, None, 2), (16, 5, 4, None), (30, 0, 300, 4), (25, 12, 6, 12), (18, 2, None, 7),
+                               (40, 60, None, None), (22, 4, 5, 1)):
         xk = rgp.standard_normal((nx, 12))
-        case = {"kind": "kfilt_padding", "nx": nx, "pad": pad, "lagc": lagc}
+        case = {"kind": "kfilt_padding", "nx": nx, "pad": pad, "lagc": lagc, "tap": tap}
         try:
             with warnings.catch_warnings():
                 warnings.simplefilter("ignore")
-                a = V().kfilt(xk.copy(), ntr_pad=pad, ntr_tap=0, lagc=lagc)
-                padded = np.r_[np.flipud(xk[:pad]), xk, np.flipud(xk[-pad:])]
-                b = V().kfilt(padded.copy(), ntr_pad=0, ntr_tap=0, lagc=lagc)
+                a = V().kfilt(xk.copy(), ntr_pad=pad, ntr_tap=tap, lagc=lagc)
+                # the model's structure (spatial_body): gain control, mirrored padding (clamped), taper, filter, crop, gain
+                from ibldsp.utils import fcn_cosine
+                npad = min(pad, nx)
+                ntap = npad if tap is None else tap
+                nxp = nx + 2 * npad
+                if lagc:
+                    xa, gain = V().agc(xk.copy(), wl=lagc, si=1.0)
+                else:
+                    xa, gain = xk.copy(), 1
+                padded = np.r_[np.flipud(xa[:npad]), xa, np.flipud(xa[-npad:])] if npad > 0 else xa
+                if ntap > 0:
+                    tp = fcn_cosine([0, ntap])(np.arange(nxp)) * (1 - fcn_cosine([nxp - ntap, nxp])(np.arange(nxp)))
+                    if np.min(tp) < -1e-12 or np.max(tp) > 1 + 1e-12:
+                        ctx.fail("kfilt taper leaves [0, 1]", case, {"kind": "taper"})
+                    padded = padded * tp[:, np.newaxis]
+                b = V().kfilt(padded.copy(), ntr_pad=0, ntr_tap=0, lagc=None)
                 if not (isinstance(a, np.ndarray) and isinstance(b, np.ndarray) and a.ndim == 2 and b.ndim == 2):
                     raise BadReturn("kfilt returned %s / %s" % (type(a).__name__, type(b).__name__))
-                npad = min(pad, nx)
-                b = b[npad:npad + nx]
+                b = b[npad:npad + nx] * gain
         except Exception as e:
             ctx.fail("kfilt with padding raised %r" % (e,), case,
                      {"kind": "kfilt_pad_gt_nx" if pad > nx else "exception"})
@@ -1021,7 +1117,7 @@ def run(ctx):
         try:
             with warnings.catch_warnings():
                 warnings.simplefilter("ignore")
-                af = V().fk(xk.copy(), si=0.002, dx=1, vbounds=[2, 4], ntr_pad=pad, ntr_tap=0, lagc=None)
+                af = V().fk(xk.copy(), si=0.002, dx=1, vbounds=[2, 4], ntr_pad=pad, ntr_tap=tap, lagc=None)
             if not isinstance(af, np.ndarray) or af.shape != xk.shape:
                 ctx.fail("fk returned shape %s for an input of shape %s (ntr_pad=%d)" % (np.shape(af), xk.shape, pad),
                          dict(case, fn="fk"), {"kind": "kfilt_pad_gt_nx" if pad > nx else "kfilt_shape"})
@@ -1032,12 +1128,12 @@ def run(ctx):
             ctx.fail("kfilt returned shape %s for an input of shape %s (ntr_pad=%d)" % (a.shape, xk.shape, pad), case,
                      {"kind": "kfilt_pad_gt_nx" if pad > nx else "kfilt_shape"})
         elif a.shape != b.shape or np.max(np.abs(a - b)) > TOL * max(1.0, np.max(np.abs(b))):
-            ctx.disagree("kfilt(ntr_pad=p) differs from filtering the block padded with p mirrored channels on each "
-                         "side and cropping (the model's pad / filter / unpad structure)", case)
+            ctx.disagree("kfilt(ntr_pad, ntr_tap, lagc) differs from: gain control, mirrored padding, cosine taper, "
+                         "filter, crop, gain restored (the model's spatial_body structure)", case)
 
     # ---- adc tables
-    for ver in (1, 2, 24, 0):
-        for nc in (1, 2, 12, 13, 24, 25, 32, 33, 383, 384, 385):
+    for ver in (1, 2, 24, 0, 3):
+        for nc in ((1, 2, 12, 13, 24, 25, 32, 33, 383, 384, 385) if ver != 3 else (384,)):
             try:
                 obs = impl_adc(ver, nc)
             except Exception as e:
@@ -1051,10 +1147,17 @@ def run(ctx):
     # ---- destripe: label vectors -> the model's inside / outside index vectors and stage trace
     dcases = gen_destripe_cases(ctx)
     for case in dcases:
+        if case.get("labels_mode") == "detect":
+            try:
+                case["labels"] = detect_labels(case, destripe_input(case))
+            except Exception as e:
+                ctx.fail("detect_bad_channels raised %r" % (e,), dict(case), {"kind": "exception"})
+                case["labels"] = [0] * 384
         lab = case["labels"]
         inputs.append([3, 0] if lab is None else [3, len(lab)] + lab)
         checks.append(None)
-        inputs.append([8, 384, 0 if case.get("no_version") else 1, 0 if lab is None else 1] + (lab or []))
+        hl = 0 if lab is None else (2 if case.get("labels_mode") == "detect" else 1)
+        inputs.append([8, 384, 0 if case.get("no_version") else 1, hl] + (lab or []))
         checks.append(None)
     model = ex.run_many(inputs, nproc=4)
     for m, chk in zip(model, checks):
@@ -1071,7 +1174,7 @@ def run(ctx):
         if case["labels"] is None:
             inside, outside = list(range(384)), []
         desc = {k2: v2 for k2, v2 in case.items()}
-        x = np.random.default_rng(case["seed"]).standard_normal((384, case["ns"])) * 1e-5
+        x = destripe_input(case)
         tracer = StageTracer()
         try:
             y = destripe_call(case, x, case["labels"], tracer=tracer)
@@ -1101,7 +1204,7 @@ def run(ctx):
                      "filter applied to exactly the channels with label != 3 (model's index vector), in this order",
                      desc, {"kind": "destripe_labels"})
         # k_filter=False: referencing leaves a zero median over the channels inside the brain (black box)
-        if not case["k_filter"] and len(inside) and \
+        if not case["k_filter"] and not (case.get("kk") or {}).get("operator") and len(inside) and \
                 np.max(np.abs(np.median(y[inside], axis=0))) > TOL * scale:
             ctx.fail("destripe(k_filter=False): the median over the %d channels inside the brain is not zero"
                      % len(inside), desc, {"kind": "destripe_median"})
@@ -1280,16 +1383,17 @@ def _replay(ctx, data):
     if kind == "destripe":
         lab = inp["labels"]
         m, mt = ex.run_many([[3, 0] if lab is None else [3, len(lab)] + lab,
-                             [8, 384, 0 if inp.get("no_version") else 1, 0 if lab is None else 1] + (lab or [])],
+                             [8, 384, 0 if inp.get("no_version") else 1,
+                              0 if lab is None else (2 if inp.get("labels_mode") == "detect" else 1)] + (lab or [])],
                             nproc=1)
         inside = m[1:1 + m[0]]
         outside = m[2 + m[0]:]
         if lab is None:
             inside, outside = list(range(384)), []
         tr = StageTracer()
-        destripe_call(inp, np.zeros((384, inp["ns"])) + 1e-6, lab, tracer=tr)
+        destripe_call(inp, destripe_input(inp), lab, tracer=tr)
         print("stage trace: implementation", tr.trace, "model", [(mt[i], mt[i + 1]) for i in range(0, len(mt), 2)])
-        x = np.random.default_rng(inp["seed"]).standard_normal((384, inp["ns"])) * 1e-5
+        x = destripe_input(inp)
         y = destripe_call(inp, x, inp["labels"])
         pre, exp = destripe_expected(inp, x, inp["labels"], inside)
         scale = float(np.max(np.abs(pre)))
@@ -1310,7 +1414,7 @@ def _replay(ctx, data):
                 if inp.get("fn") == "fk":
                     a = V().fk(xk.copy(), si=0.002, dx=1, vbounds=[2, 4], ntr_pad=inp["pad"], ntr_tap=0, lagc=None)
                 else:
-                    a = V().kfilt(xk.copy(), ntr_pad=inp["pad"], ntr_tap=0, lagc=inp["lagc"])
+                    a = V().kfilt(xk.copy(), ntr_pad=inp["pad"], ntr_tap=inp.get("tap", 0), lagc=inp["lagc"])
                 print("kfilt input shape", xk.shape, "output shape", a.shape)
                 return 1 if a.shape != xk.shape else 0
             except Exception as e:
